@@ -414,8 +414,17 @@ func splitPathImpl(expr string) []string {
 	}
 
 	// Full parsing with bracket support
-	var b strings.Builder
+	var out []string
+	var b strings.Builder // the dotted text since the last quoted key
 	b.Grow(len(expr) + 8)
+	flush := func() {
+		for _, p := range strings.Split(b.String(), ".") {
+			if p = strings.TrimSpace(p); p != "" {
+				out = append(out, p)
+			}
+		}
+		b.Reset()
+	}
 	i := 0
 	for i < len(expr) {
 		ch := expr[i]
@@ -431,9 +440,12 @@ func splitPathImpl(expr string) []string {
 			}
 			inside := strings.TrimSpace(expr[i+1 : j])
 			if len(inside) >= 2 && ((inside[0] == '\'' && inside[len(inside)-1] == '\'') || (inside[0] == '"' && inside[len(inside)-1] == '"')) {
-				inside = inside[1 : len(inside)-1]
-			}
-			if inside != "" {
+				// a quoted key is one segment, whatever it contains: files["index.html"]
+				flush()
+				if key := strings.TrimSpace(inside[1 : len(inside)-1]); key != "" {
+					out = append(out, key)
+				}
+			} else if inside != "" {
 				b.WriteByte('.')
 				b.WriteString(inside)
 			}
@@ -443,17 +455,6 @@ func splitPathImpl(expr string) []string {
 			i++
 		}
 	}
-
-	builtStr := b.String()
-	parts := strings.Split(builtStr, ".")
-	// Sanitize in-place to avoid extra allocation
-	out := parts[:0]
-	for _, p := range parts {
-		p = strings.TrimSpace(p)
-		if p == "" {
-			continue
-		}
-		out = append(out, p)
-	}
+	flush()
 	return out
 }
